@@ -301,7 +301,7 @@ Definition sao_cancel (cx : Ctx) (creator provider : string) (oid : Z) : M unit 
             (if sh_status sh =? ShardCompleted then shard_release (sh_sp sh) (Some sh) else ret tt) ;;;
             modify (fun s => s <| shards ::= delete id |>)
         end) ;;;
-      cancel_order oid
+      cancel_order cx oid
   end.
 
 (** * Renew (after the D4 repair) *)
@@ -364,7 +364,7 @@ Definition renew_one (cx : Ctx) (m : RenewMsg) (sigdid : string) (data : string)
         ret (if acc_end <? e then e else acc_end) in
       new_end <- (fix go (l : list (Z * Shard)) (acc : Z) : M Z :=
                     match l with [] => ret acc | x :: r => a <- step acc x ;; go r a end) shs 0 ;;
-      extend_meta_duration (o_data o) new_end ;;;
+      extend_meta_duration data new_end ;;;
       try_ (update_meta cx nid no) ;;;
       ret tt
   end end end end.
@@ -577,7 +577,7 @@ Definition handle_timeout_order (cx : Ctx) (oid : Z) : M unit :=
   match orders s !! oid with
   | None => ret tt
   | Some o =>
-      if o_status o =? OrderPending then (try_ (cancel_order oid) ;;; ret tt) else
+      if o_status o =? OrderPending then (try_ (cancel_order cx oid) ;;; ret tt) else
       if u64 (o_created o + o_duration o) <=? u64 (cx_height cx + o_timeout o) then ret tt else
       let present := omap (fun id => match shards s !! id with Some sh => Some (id, sh) | None => None end) (o_shards o) in
       let sps := map (fun x => sh_sp x.2) present in
@@ -598,7 +598,7 @@ Definition handle_timeout_order (cx : Ctx) (oid : Z) : M unit :=
             if MAX_TRIES * o_timeout o mod two64 <? u64 (cx_height cx - o_created o) then
               if negb (o_status o =? OrderCompleted) then
                 remove_shards (o_shards o) ;;;
-                try_ (cancel_order oid) ;;; ret tt
+                try_ (cancel_order cx oid) ;;; ret tt
               else
                 remove_shards uncompleted ;;;
                 let o1 := o <| o_replica := i32 (o_replica o - i32 tcount) |> <| o_shards := completed |> in
